@@ -55,7 +55,7 @@ theorem nest_size (td : TreeDef) (ss : List Struct) :
 theorem matmul_structures {V} (A : ArithSem V) (a b r : Op) (ha : ArithSem.WFtop a) (hb : ArithSem.WFtop b)
     (hai : A.LazyInvertible a) (hbi : A.LazyInvertible b)
     (h : pyMatmul a b = .ok r) : Op.inS r = Op.inS b ∧ Op.outS r = Op.outS a :=
-  let ⟨_, h2, h3, _⟩ := A.pyMatmul_den a b r ha hb hai hbi h; ⟨h2, h3⟩
+  let ⟨_, h2, h3⟩ := A.pyMatmul_structs a b r ha hb hai hbi h; ⟨h2, h3⟩
 
 /-- **`reduce()` keeps the declared structures**: on every well-formed expression the reduced operator has the
 same input and output structures (the structural half of `C01.reduce_sound`; the 13 registered rules, containers
@@ -66,13 +66,15 @@ theorem reduce_keeps_structures {V} (A : ArithSem V) (laws : RuleLaws A) (extra 
   let ⟨_, h1, h2, _⟩ := Furax.reduce_sound A laws extra fuel o r hw h; ⟨h1, h2⟩
 
 /-- reduction keeps the typing of a chain (hence its input and output structures), for any rule list sound on
-operands satisfying an invariant `P` (for the registry: `WTExpr`, `binaryRules_sound`) -/
-theorem reduction_keeps_structures {V} (L : OpSem V) (P : Op → Prop) (hid : ∀ s, P (Op.mkIdentity s))
+operands satisfying an invariant `P` that implies structural well-formedness (for the registry: `WTExpr`,
+`binaryRules_sound`, `WTExpr.structOK`) -/
+theorem reduction_keeps_structures {V} (L : OpSem V) (P : Op → Prop) (hPok : ∀ o, P o → StructOK o)
+    (hid : ∀ s, P (Op.mkIdentity s))
     (hhom : ∀ v s, P (Op.mkHomothety v s)) (red : Op → Except PyErr Op)
     (hr : ∀ ru ∈ binaryRules red, L.toSem.RuleSoundOn P ru) (ops res : List Op) (s t : Struct)
     (hP : ∀ o ∈ ops, P o) (hwt : L.toSem.WT ops s t) (hres : algebraicReduction red ops = .ok res) :
     L.toSem.WT res s t :=
-  (L.algebraicReduction_sound_on P hid hhom red hr ops res s t hP hwt hres).2.1
+  (L.algebraicReduction_sound_on P hPok hid hhom red hr ops res s t hP hwt hres).2.1
 
 /-- kernels: ravel and reshape keep every leaf's size; the strict diagonal keeps every leaf's shape; move-axis
 permutes the shape -/
